@@ -141,6 +141,26 @@ fn main() {
     if a.len() >= 3 && a[1] == "demo" {
         std::process::exit(demo(&a[2]));
     }
+    if a.len() >= 3 && a[1] == "bounded" && std::env::var("RX_CHILD").is_err() {
+        // the family runs in a child process: panics are caught there, but a stack overflow or abort in the real code kills the process - the parent reports it
+        let dir = std::env::var("RX_TMP").unwrap_or_else(|_| ".".to_string());
+        let tr = format!("{dir}/trace.{}", std::process::id());
+        let _ = std::fs::remove_file(&tr);
+        let st = std::process::Command::new(std::env::current_exe().unwrap()).args(&a[1..]).env("RX_CHILD", "1").env("RX_TRACE", &tr).status();
+        let last = std::fs::read_to_string(&tr).unwrap_or_else(|_| "(case not recorded by this family)".to_string());
+        let _ = std::fs::remove_file(&tr);
+        match st {
+            Ok(s) if matches!(s.code(), Some(0) | Some(1) | Some(4)) => std::process::exit(s.code().unwrap()),
+            Ok(s) => {
+                use std::os::unix::process::ExitStatusExt;
+                println!("BOUNDED property={} cases=1 distinct=1 FAIL", a[2]);
+                println!("FAILING-INPUT the process running the real code died ({}) - stack overflow, abort or kill instead of a result; last case started: {}",
+                    s.signal().map(|n| format!("signal {n}")).unwrap_or_else(|| format!("exit code {:?}", s.code())), last);
+                std::process::exit(1);
+            }
+            Err(e) => { println!("cannot start the child process: {e}"); std::process::exit(2); }
+        }
+    }
     if a.len() >= 3 && a[1] == "bounded" {
         let prop = a[2].clone();
         let res = std::panic::catch_unwind(move || bounded::run(&prop));
